@@ -12,699 +12,805 @@ Definition show_fres (r : fres) : string :=
   end.
 Definition check (rs : list rune) : string := digest (show_fres (format_res rs)).
 Definition full (rs : list rune) : string := show_fres (format_res rs).
-Eval vm_compute in ("<<<M1899>>>" ++ check (runes_of_ascii "MetaData asx {
-    char[] MetaDataX,
-    lengthOf Z9_,
-    crc Foo,
-    char[4294967296] BodyLength,
-    Foo leftPad `doc`,
-    tag u128,
+Eval vm_compute in ("<<<M1676>>>" ++ check (runes_of_ascii "MetaData chars {
+    int8 Z9_,
+    float rootA `tab	here`,
+    T o `it's`,
+    roots int,
+    repeatCount MetaDataX,
+    float32 falsey `say ""hi""`,
 }
 
-root packet stringy {
-    // trailing space 
-    match Header as repeatCount {
-        [""{,}""] : Header,
-        255 : repeatCount,
-        00 : pack,
-        1 : trueish,
-        7 : A,
+packet msg_type {
+    repeat f32 o,
+    @tag(0)
+    char[] A,
+    repeat char[] tag `say ""hi""`,
+    repeat char[0] Z9_,
+    zchar[1] lengthOf,
+    i64 T,
+    match float as leftPad {
+        007 : len,
+        ""it's"" : len,
+        ""it's"" : float,
+        [
+            255, 00, 1, ""abc"", ""abc"",
+            """ ++ [28040; 24687]%N ++ runes_of_ascii """, ""x y"", """"
+        ] : _x,
+        """" : len,
+        ""\" ++ [233]%N ++ runes_of_ascii """ : i64_,
+        //	t
     },
-    T {
-        Z9_ `
-        `,
+    roots {
+        char[1] Header @lengthOf(x_y_z),
+        body u128,// `tick` ""quote"" 'q'
+        char[] float,
+        chars @lengthOf(x) `doc`,
     },
-    int16 o @calculatedFrom(""it's"") `line1
-    line2`,
-    match zchar as As {
-        ""CRC32"" : a1,
-        42 : Header,
-        [10] : zchar,
-    },
-    @tag(42)
-    repeat i64_ {
-        // c
-        char[00] _x `{ , }`,
-    },
-    repeat char[] uint8x `crlf
-    line`,
-    @leftPad('\x00')
-    @tag(7)
-    int32 repeatCount @calculatedFrom(""x y"") `// not a comment`,
-    u32 zchar `
-    `,
-    repeat stringy {
-        i8i8 lengthOf,
-    },// packet A { u8 x, }
-    @calculatedFrom(""abc"")
-    @lengthOf(tag)
-    @lengthOf(rootA)
-    char[3] rootA `" ++ [233]%N ++ runes_of_ascii "`,// c
+    crc `it's`,
+    @calculatedFrom(""" ++ [128512]%N ++ runes_of_ascii """)
+    BodyLength `" ++ [28040; 24687; 31867; 22411]%N ++ runes_of_ascii "`,
 }
 
-MetaData crc {
-    float32 asx `" ++ [233]%N ++ runes_of_ascii "`,
-    string i64_,
-}
-
-root packet Packet {
-    charz @lengthOf(zchar),
-    f32 f32a `{ , }`,
-    i64 matchKey @lengthOf(leftPad),
-    string trueish,
-    @leftPad('0')
-    // trailing space 
-    tag @lengthOf(string_) `doc`,
-    match stringy as calculatedFrom {
-        [0123456789] : repeatCount,
-    },// trailing space 
-    char[3] Header,
-    int64 MetaDataX,
-    @leftPad()
-    len {
-        packetx @lengthOf(chars) ``,
-    },
-    @rightPad('0')
-    x_y_z,
-}
-
-options {
-    rootA = '0';
-    Foo = char;
-    A = zchar[0123456789];
-    packetx = """ ++ [233]%N ++ runes_of_ascii "t" ++ [233]%N ++ runes_of_ascii """
-    float = true
-}//x")).
-Eval vm_compute in ("<<<M225>>>" ++ check (runes_of_ascii "packet T
-    // " ++ [128512]%N ++ runes_of_ascii " emoji
-    { match repeatCount as
-Packet {
-    ""packet"" : msg_type , 00 :
-    Foo
-    ,""" ++ [128512]%N ++ runes_of_ascii """ : trueish, """": repeatCount
-    [ // packet A { u8 x, }
-4294967296 , 65535 ] :	u ,	}, @calculatedFrom( ""a\\"" )
-    float32 len @lengthOf(// " ++ [128512]%N ++ runes_of_ascii " emoji
-string_
-    ), stringy Pad, roots{ repeat x_y_z
-    `// not a comment`
-, T
-`" ++ [233]%N ++ runes_of_ascii "` , }, @tag(
-007 )  _x
-{// " ++ [128512]%N ++ runes_of_ascii " emoji
-char[] body
-@calculatedFrom( """ ++ [233]%N ++ runes_of_ascii "t" ++ [233]%N ++ runes_of_ascii """
-    //	t
-    ) ,repeat Pad// packet A { u8 x, }
-``
-// c
-/// triple
-, }
-    //x
-    , match	u as packetx{// `tick` ""quote"" 'q'
-[ ""// no comment"" ,
-007]	: T
-, [  ""\" ++ [233]%N ++ runes_of_ascii """// " ++ [27880; 37322]%N ++ runes_of_ascii "
-] :// trailing space 
-u8x } , @rightPad( ) int8 _x , @lengthOf(
-A	)match/// triple
-crc
-as metadata { [ 00,
-    //	t
-    ""a\""b"" ,3
-    , 1
-    ,
-10 ] : Packet , //	t
-[
-4294967296	, ""abc"" , """"] // @lengthOf(
-:
-// `tick` ""quote"" 'q'
-// " ++ [27880; 37322]%N ++ runes_of_ascii "
-a1 , """ ++ [28040; 24687]%N ++ runes_of_ascii """ // `tick` ""quote"" 'q'
-:
-    repeatCount  , } , }options { }MetaData Header
-{  trueish Pad ,
-    } MetaData Z9_ { char[]
-metadata ,
-// " ++ [128512]%N ++ runes_of_ascii " emoji
-// packet A { u8 x, }
-Header A
-`doc`
-// a // b
-// a // b
-, //x
-uint32 // " ++ [27880; 37322]%N ++ runes_of_ascii "
-packetx ,
-int16 uint8x
-    //
-    , Header// @lengthOf(
-leftPad
-    , // packet A { u8 x, }
-}
-// trailing space 
-")).
-Eval vm_compute in ("<<<M1327>>>" ++ check (runes_of_ascii "// top
-options
-    // c0
-{ // c1a
-  // c1b
-LittleEndian
-    // c2
-= true // c4a
-  // c4b
-;
-    // c5
-StringPrefixLenType =
-    // c7
-u16 // c8
-; // c9a
-  // c9b
-FixedStringPadChar // c10
-= // c11
-' '
-    // c12
-;
-    // c13
-} // c14
-packet // c15a
-  // c15b
-Logon { // c17a
-  // c17b
-@leftPad ( '0' ) // c21
-char[ // c22a
-  // c22b
-10 // c23
-] // c24
-tag7 // c25a
-  // c25b
-,
-    // c26
-} // c27a
-  // c27b
-root packet
-    // c29
-Ack // c30a
-  // c30b
-{ int32 // c32
-Px , // c34
-uint16
-    // c35
-count // c36
-,
-    // c37
-string // c38a
-  // c38b
-Qty
-    // c39
-, // c40a
-  // c40b
-string // c41a
-  // c41b
-OrderId // c42
-, string Flags // c45a
-  // c45b
-,
-    // c46
-u8 // c47a
-  // c47b
-x // c48a
-  // c48b
-, // c49a
-  // c49b
-match // c50
-x // c51
-as
-    // c52
-Body
-    // c53
-{ // c54
-[ // c55a
-  // c55b
-58 // c56
-, // c57
-169 // c58a
-  // c58b
-] // c59
-: Logon , // c62a
-  // c62b
-} // c63
-,
-    // c64
-}
-    // c65
-")).
-Eval vm_compute in ("<<<M1683>>>" ++ check (runes_of_ascii "root packet u {
-    match T as body {
-        [3, ""a\""b""] : stringy,
-        ""a	b"" : charz,
-        10 : lengthOf,
-        ""CRC32"" : falsey,
-        0123456789 : _x,
-    },
-    body @lengthOf(i64_),
-    u64 chars `u8 x,`,
-    T {
-        i64_ string_,
-        u32 metadata,
-        zchar[1] Z9_,
-    },
-    @calculatedFrom(""a\\"")
-    rootA x_y_z `u8 x,`,
-    zchar[007] body @calculatedFrom(""\n""),
-    @leftPad('0')
-    @rightPad('0')
-    @calculatedFrom(""" ++ [233]%N ++ runes_of_ascii "t" ++ [233]%N ++ runes_of_ascii """)
-    repeat uint64 A,
-    repeat u8x {
-        match o as x {
-            10 : charz,
-            ""a	b"" : matchKey,
-            ""x y"" : trueish,
-            [""" ++ [233]%N ++ runes_of_ascii "t" ++ [233]%N ++ runes_of_ascii """] : zchar,
-            ""1"" : charz,
-            [""a\""b"", ""abc"", ""a\\"", ""abc"", """"] : u8x,
+packet u128 {
+    lengthOf,
+    pack @lengthOf(u8x) `// not a comment`,
+    @leftPad(' ')
+    float {
+        match asx as charz {
+            [4294967296, 255, 42, """", ""1""] : u8x,
+            ""{,}"" : Foo,
+            42 : leftPad,
+            [
+                255, 4294967296,
+                ""a\""b"", ""it's""
+            ] : stringy,
+            3 : Header,
+        },
+        match o as Pad {
+            3 : i64_,
+        },
+        repeat string msg_type,
+        match packetx as lengthOf {
+            [""x y"", """"] : x_y_z,
         },
     },
-    repeat falsey {
-        rootA tag,
-        zchar[0] falsey,
+    i64 float,
+    repeat zchar[3] rootA `crlf
+    line`,
+    match msg_type as len {
+        ""CRC32"" : MetaDataX,
     },
-    charz a1 `{ , }`,
-}
-
-root packet Header {
+    f32 A,
+    char[0123456789] chars `{ , }`,/// triple
+    @calculatedFrom(""a\""b"")
+    string string_ `" ++ [233]%N ++ runes_of_ascii "`,
 }")).
-Eval vm_compute in ("<<<M1814>>>" ++ check (runes_of_ascii "packet leftPad {
-    //
-    i8 stringy @calculatedFrom(""" ++ [128512]%N ++ runes_of_ascii """),
-    int @calculatedFrom(""a	b"") `it's`,
-    @leftPad()
-    @tag(0123456789)
-    int32 u8x,
-    @lengthOf(A)
-    float64 u128 @calculatedFrom(""a\\""),//x
-}
-
-options {
+Eval vm_compute in ("<<<M282>>>" ++ check (runes_of_ascii "// a // b
+packet stringy	{
+string zchar ,
+    repeat T
+, match
+u
+as  charz {
+007
     //x
-    Pad = 0
-    u = ' '
-}
-
-MetaData a1 {
-    char[] metadata `// not a comment`,
-}
-
-packet Foo {
-    @tag(42)
-    repeat BodyLength,
-    int8 metadata `{ , }`,
-    @leftPad()
-    @calculatedFrom(""`tick`"")
-    @calculatedFrom(""a	b"")
-    u32 stringy,
-    @lengthOf(roots)
-    zchar[0] msg_type @lengthOf(i64_) `tab	here`,
-    i8 Header `{ , }`,
-    char[7] trueish @lengthOf(packetx),
-    u64 charz `
-    `,
-    zchar[65535] repeatCount `it's`,
-    match calculatedFrom as calculatedFrom {
-        ""a	b"" : roots,
-        42 : MetaDataX,
-    },
-}")).
-Eval vm_compute in ("<<<M192>>>" ++ check (runes_of_ascii "// trailing space 
-options { f32a=
-false;	stringy=	true
-;
-u=  ""\" ++ [233]%N ++ runes_of_ascii """  ;
-    stringy = false;
-} packet options1 // " ++ [27880; 37322]%N ++ runes_of_ascii "
-{
-} MetaData
-packetx { f32 uint8x  ,  } root packet zchar {
-@tag( 4294967296
-) @lengthOf(a1
-)
-i8
-_x
-`it's` ,//x
-char[]	o , body
-    ,
-zchar[ 65535] msg_type
-`crlf
-line` , repeat
-    BodyLength{ repeat char[ 65535
-    ] stringy,
-},
-@calculatedFrom( """ ++ [128512]%N ++ runes_of_ascii """
-) @tag( 10
-    // a // b
-    ) repeat f32
-lengthOf`line1
-line2` , repeat  u {
-    uint32 Z9_, //
-repeat body
-`
-` , }  , @tag( 4294967296
-) i64_ @lengthOf( tag
-    // packet A { u8 x, }
-    ), @lengthOf(//	t
-float) @lengthOf(
-    // " ++ [128512]%N ++ runes_of_ascii " emoji
-    packetx	) @calculatedFrom( """ ++ [128512]%N ++ runes_of_ascii """
-)	repeat x_y_z u  ,@tag( 65535 )u8
-A	,} //")).
-Eval vm_compute in ("<<<M147>>>" ++ check (runes_of_ascii "root
-    packet falsey{	@tag( 255) len@calculatedFrom( ""`tick`""
-    )//
-,match MetaDataX as
-crc
-{	[7 ] :
-    roots ,} ,	@tag( 10 ) @tag(
-// `tick` ""quote"" 'q'
-// `tick` ""quote"" 'q'
-10//
-) @tag( 255)	repeat /// triple
-uint64 rootA	, tag // a // b
-`" ++ [28040; 24687; 31867; 22411]%N ++ runes_of_ascii "` ,
-float32  i64_ , int64 _x  `doc` , @leftPad( ' '
-    )
-match
+    :
+//	t
 // @lengthOf(
-// @lengthOf(
-i8i8 as pack { // `tick` ""quote"" 'q'
-7 : Logon , ""x y"" : lengthOf , } , // trailing space 
-match x_y_z as u
-{
-// `tick` ""quote"" 'q'
-// " ++ [27880; 37322]%N ++ runes_of_ascii "
-[ 0123456789 ] :	packetx ,007 :x_y_z
-// trailing space 
-//
-, 10 : rootA , 7 : u 0123456789 :falsey
-, }	, // packet A { u8 x, }
-}
-")).
-Eval vm_compute in ("<<<M1849>>>" ++ check (runes_of_ascii "// top
-options {
-    LittleEndian = false;
-    // c5
-    StringPrefixLenType = u8;// c9
-    ArrayPrefixLenType = u64;// c13a
-    // c13b
-    FixedStringPadFromLeft = false;
-    // c17
-    FixedStringPadChar = ' ';
-}
-
-// c22
-packet Reject {
-    // c25a
-    // c25b
-    repeat char[4] seqNo,// c31
-    string Px,
-}
-
-root packet Trade {
-    @rightPad('0')
-    // c43
-    char[2] msgKind,// c48
-    repeat f64 price,
-    InAcct79 {
-        // c54
-        repeat Reject,
-        // c57
-        zchar[7] OrderId,
-    },// c64
-    Reject,// c66
-}")).
-Eval vm_compute in ("<<<M328>>>" ++ check (runes_of_ascii "
-packet
-Logon { repeatCount { BodyLength
-    `crlf
-line`, }
-    , zchar a1 `u8 x,`  ,
-match Foo as Foo { ""\n"" :i8i8,[
-""abc""
-    , // trailing space 
-""CRC32"" ]
-/// triple
-// " ++ [128512]%N ++ runes_of_ascii " emoji
-: // @lengthOf(
-crc
-    [ 3 ,
-//
-// " ++ [128512]%N ++ runes_of_ascii " emoji
-""x y"", 42 , ""`tick`""
-, 1 , ""a\""b"",
-    ""CRC32"" , 255 ]:repeatCount , [// " ++ [128512]%N ++ runes_of_ascii " emoji
-1
-// a // b
-// " ++ [27880; 37322]%N ++ runes_of_ascii "
-,007 ,
-""\n"",007 , 7 , ""// no comment"" ,
-255 ] :
-    uint8x 00
-: f32a , } ,
-    // a // b
-    uint16 Pad @lengthOf( uint8x)// packet A { u8 x, }
-`doc`  ,
-}")).
-Eval vm_compute in ("<<<M1113>>>" ++ check (runes_of_ascii "// top
-packet // c0
-float // c1
-{ // c2
-@rightPad // c3
-( // c4
-) // c5
-rootA // c6
-@lengthOf( // c7
-trueish // c8
-) // c9
-, // c10
-stringy // c11
-@lengthOf( // c12
-matchKey // c13
-) // c14
-, // c15
-char[ // c16
-4294967296 // c17
-] // c18
-pack // c19
-@lengthOf( // c20
-uint8x // c21
-) // c22
-, // c23
-} // c24
-root // c25
-packet // c26
-trueish // c27
-{ // c28
-repeat // c29
-uint64 // c30
-u128 // c31
-`line1
-line2` // c32
-, // c33
-} // c34
-")).
-Eval vm_compute in ("<<<M1271>>>" ++ check (runes_of_ascii "options { // c1a
-  // c1b
-LittleEndian
-    // c2
-= // c3
-true // c4
-; } // c6a
-  // c6b
-packet B { u8 // c10a
-  // c10b
-a
-    // c11
-, // c12a
-  // c12b
-string // c13
-s // c14
-, } // c16
-root // c17a
-  // c17b
-packet
-    // c18
-P // c19
-{ u16 // c21
-L @lengthOf( B ) // c25a
-  // c25b
-, // c26a
-  // c26b
-B // c27a
-  // c27b
-,
-    // c28
-u8
-    // c29
-t // c30
-, // c31
-} // c32a
-  // c32b
-")).
-Eval vm_compute in ("<<<M75>>>" ++ check (runes_of_ascii "packet zchar { @calculatedFrom( ""`tick`""
-) uint32
-    falsey,} MetaData packetx {
-string
-//
-// @lengthOf(
-msg_type `u8 x,`, }packet i8i8 {zchar@lengthOf(
-uint8x
-    ) ,
-    }packet As{ zchar[ 4294967296
+float// trailing space 
+,""\" ++ [233]%N ++ runes_of_ascii """ : Logon ""a	b"":
+//	t
+//	t
+pack, } , match uint8x as
     // " ++ [27880; 37322]%N ++ runes_of_ascii "
-    ] T	@calculatedFrom( ""abc"" ) , @tag(007 )
-    repeat
-    i16
-// " ++ [27880; 37322]%N ++ runes_of_ascii "
-// packet A { u8 x, }
-u8x `say ""hi""`, @lengthOf( u )
-repeat uint16 u128 , }")).
-Eval vm_compute in ("<<<M194>>>" ++ check (runes_of_ascii "// `tick` ""quote"" 'q'
-options
-    //	t
-    { }  packet lengthOf // `tick` ""quote"" 'q'
-{  } packet
-// a // b
-// " ++ [27880; 37322]%N ++ runes_of_ascii "
-Foo {
-@tag(
+    roots
+{
 1
-) string
-uint8x ,_x { chars  , string uint8x , i64 _x //
-`it's`
-    , repeat uint8 As,	}
-, float32
-f32a , @leftPad( '\x00')
-    @calculatedFrom( """ ++ [28040; 24687]%N ++ runes_of_ascii """
-) // trailing space 
-uint8 Logon
+    // `tick` ""quote"" 'q'
+    : len
+,	}
+//x
+// " ++ [27880; 37322]%N ++ runes_of_ascii "
+, }packet zchar {	roots options1
+    //x
+    `// not a comment` , int64 As
 ,
-    }")).
-Eval vm_compute in ("<<<M1677>>>" ++ check (runes_of_ascii "
-packet //x
-	x_y_z  { rootA
-
+    i16 float
+    @lengthOf( falsey
+    // " ++ [27880; 37322]%N ++ runes_of_ascii "
+    ) `a\`
+    , int64 msg_type `tab	here`
+, @tag(0
+    // `tick` ""quote"" 'q'
+    ) repeat uint8x ,
+    @lengthOf(x
+    ) repeat metadata
+    , zchar[ 0 ]	int , uint64
+    zchar ,zchar[7 // " ++ [27880; 37322]%N ++ runes_of_ascii "
+]
+msg_type
+,
+@calculatedFrom(
+/// triple
+// " ++ [27880; 37322]%N ++ runes_of_ascii "
+""" ++ [28040; 24687]%N ++ runes_of_ascii """ ) crc
+, }
+root packet zchar { repeat
+leftPad,
+} packet
+A{
+@lengthOf(
+    string_ )	x@lengthOf( options1) `two words`,  string
+len ,	}packet	falsey{ i64_ @calculatedFrom(	""{,}"" ) , repeat
+string chars
+, zchar[ 7]calculatedFrom
+, Header
+    { char u`two words`, repeat char[] // c
+tag
+    `say ""hi""`	, Z9_
     @lengthOf(
-	o
-    )
-	`two words`  ,
-} 
-MetaData 
-f32a  {
-trueish
-// packet A { u8 x, }
-    	x ,
+T ) `line1
+line2` , } , msg_type @calculatedFrom( ""// no comment""
+    ) , @rightPad (// packet A { u8 x, }
+'\x00' )
+@lengthOf( asx )
+falsey
+,
+    } // packet A { u8 x, }")).
+Eval vm_compute in ("<<<M1835>>>" ++ check (runes_of_ascii "  options 
+    //x
+    // @lengthOf(
+  { Foo	= ""// no comment"" 
+/// triple
+//	t
+;	}
+packet
+    float{ }packet
 
-    }MetaData	body
+    len  {
+@lengthOf(  _x
+) stringy
+{
 
-    {
-	u128 pack
+metadata
+    @calculatedFrom( ""a\\"" ) ,
+
+}
+, 
+//x
+//
+
+  }packet
+    asx
+	{@tag(
+    0  )
+	repeat float64 A `say ""hi""` ,
+    //
+      // trailing space 
+    i16
+    int 
+`say ""hi""`
+	,
+@calculatedFrom(
+
+    """ ++ [128512]%N ++ runes_of_ascii """
+)	lengthOf Header
+`two words`
+	,
+
+    f32a  zchar	,
+
+@rightPad (
+
+'0' )
+	repeat	string_ 
+    // packet A { u8 x, }
+  chars
+	``
+
+, 
+@tag(
+4294967296
+) @calculatedFrom(
+    ""a	b""
+
+)  repeat msg_type
+
+,@leftPad(
+
+)
+
+repeat	f64
+_x
 
     ,
 
-f64  
-      // @lengthOf(
-    	float ,char[
+    repeat As
+    {  Logon @lengthOf(
+calculatedFrom	) `two words`  ,
 
-65535
-    //	t
-	/// triple
-  ]  tag  `" ++ [233]%N ++ runes_of_ascii "`// c
-  	,
-} 	 // " ++ [128512]%N ++ runes_of_ascii " emoji
-")).
-Eval vm_compute in ("<<<M1348>>>" ++ check (runes_of_ascii "options {
-    LittleEndian = false;
-    StringPrefixLenType = u16;
+repeat
+u64	o
+`u8 x,`
+	,  } ,
+@calculatedFrom( ""packet"" 
+)
+
+    repeat // @lengthOf(
+		uint8
+u,
 }
-packet Heartbeat {
-    @rightPad('0') char[7] seqNo,
-    uint64 Tail,
-    i16 Flags,
-    u16 msgKind,
+
+    packet uint8x {  @leftPad
+	( 
+'0' ) 
+  //	t
+	//x
+  zchar[ 
+
+    // packet A { u8 x, }
+// " ++ [27880; 37322]%N ++ runes_of_ascii "
+  255
+]
+	metadata `a\`
+
+,	//
+    }// `tick` ""quote"" 'q'
+")).
+Eval vm_compute in ("<<<M1341>>>" ++ check (runes_of_ascii "options {
+    StringPrefixLenType = u64;
+    ArrayPrefixLenType = u32;
+    FixedStringPadFromLeft = false;
+}
+packet Party {
+    zchar[7] OrderId,
+    InTail6 {
+        repeat char[1] msgKind,
+        char[3] Tail,
+        char[3] Flags,
+        i16 tag7,
+    },
+    @rightPad('0') char[12] clOrdID,
+}
+packet Quote {
+    @leftPad('0') char[11] price,
+    repeat InCount7 {
+        i32 x,
+        Party,
+        u8 Ref,
+        u8 tag7,
+    },
+    char[] seqNo,
+    Party,
+}
+packet Logon {
+    @rightPad('\x00') char[5] Note,
+    i16 sym,
+    InPrice72 {
+        char[9] Ref,
+        zchar[1] venue,
+    },
+    char[] clOrdID,
 }
 root packet Reject {
-    zchar[3] tag7,
-    repeat Heartbeat,
-    repeat string clOrdID,
-}
-")).
-Eval vm_compute in ("<<<M234>>>" ++ check (runes_of_ascii "//	t
-options{
-    chars=true As= char[]
-// trailing space 
-// " ++ [128512]%N ++ runes_of_ascii " emoji
-; /// triple
-x_y_z	= 7; // " ++ [27880; 37322]%N ++ runes_of_ascii "
-i8i8 = true packetx = /// triple
-' ' } root packet	x_y_z {repeat
-    char[
-    42
-    //x
-    ] //	t
-Pad,
-    }
-// packet A { u8 x, }
-")).
-Eval vm_compute in ("<<<M1476>>>" ++ check (runes_of_ascii "MetaData falsey {
-    Header falsey `
-    `,
-    string Foo `" ++ [28040; 24687; 31867; 22411]%N ++ runes_of_ascii "`,
-    falsey repeatCount,
-    i8 u,
-}
-
-packet A {
-    match _x as T {
-        007 : lengthOf,
-        // `tick` ""quote"" 'q'
+    repeat Logon,
+    @leftPad(' ') char[4] seqNo,
+    zchar[5] Acct,
+    u32 x,
+    u16 f1 @lengthOf(Body),
+    match x as Body {
+        [169, 74] : Quote,
+        45 : Party,
+        7 : Logon,
     },
-}")).
-Eval vm_compute in ("<<<M1301>>>" ++ check (runes_of_ascii "
-
-  packet A
-{u8 a
-
-    ,
-	} packet 
-B { u16
-
-    b , }root packet P
-
-    {u8 K
-    , match
-    K as M
-	{ [ 1
+}
+")).
+Eval vm_compute in ("<<<M330>>>" ++ check (runes_of_ascii "root packet
+As {
+} MetaData Pad { string
+    metadata  `// not a comment` ,
+    }
+packet metadata
+    { string	charz
+`a\` , @leftPad ( ' ' )pack@lengthOf(x_y_z ), @calculatedFrom( ""packet"")
+match crc
+    as chars { [ ""packet"" ,7 ]
+    :  repeatCount }
+, Pad @lengthOf( matchKey
+    ),
+@calculatedFrom( ""\n""
+    )int64
+    Z9_ @lengthOf(
+    // a // b
+    _x ),
+@lengthOf(repeatCount// trailing space 
+) repeat float
+{ u128 @lengthOf( zchar) , u8 crc
+, } ,
+    int64 pack, u128
+    `it's` , repeat
+// a // b
+// `tick` ""quote"" 'q'
+i32 T , //	t
+@tag(00 ) rootA  @lengthOf(
+float
+    )
 ,
-	2 ]: 
-A
-
+} MetaData Header // @lengthOf(
+{u32 u,	string A `crlf
+line` ,
+u16
+    roots `a\` ,int16 chars , }
+packet repeatCount { repeat char[
+// trailing space 
+//x
+65535]
+    x `line1
+line2`
+, }")).
+Eval vm_compute in ("<<<M219>>>" ++ check (runes_of_ascii "
+packet
+falsey{ // `tick` ""quote"" 'q'
+repeat charz
+    /// triple
+    float // a // b
+`tab	here`
     ,
-
-3 :B
-    ,	7
-    : A,
-	}
-	,  }
+char[]stringy  , Logon
+    f32a,
+    char[] string_/// triple
+,
+int16
+_x
+`` ,
+    match/// triple
+crc as stringy { ""abc"" :Pad
+    [ ""\n"" , 10, 4294967296, 0123456789 , ""abc"" ,	""" ++ [28040; 24687]%N ++ runes_of_ascii """
+    ] :
+i8i8 , 10 :
+    //x
+    Header , 10:// c
+calculatedFrom
+    , 0123456789: charz
+10
+    :
+    repeatCount} ,
+    leftPad @lengthOf(
+u8x )  , @lengthOf(a1) repeat x body ,
+} MetaData
+string_
+{ float64  f32a	, zchar[
+255] T, u32 trueish, BodyLength roots
+`two words` , }
+// " ++ [128512]%N ++ runes_of_ascii " emoji
+//	t
+packet stringy{ zchar[
+    255
+    ]Foo ,
+}
+MetaData
+leftPad {
+    } //
+options { x //x
+=
+true
+    ;
+zchar = """" } //")).
+Eval vm_compute in ("<<<M1238>>>" ++ check (runes_of_ascii "// top
+options
+    // c0
+{
+    // c1
+zchar
+    // c2
+=
+    // c3
+true
+    // c4
+;
+    // c5
+Pad
+    // c6
+=
+    // c7
+char[
+    // c8
+00
+    // c9
+]
+    // c10
+a1
+    // c11
+=
+    // c12
+uint32
+    // c13
+BodyLength
+    // c14
+=
+    // c15
+true
+    // c16
+;
+    // c17
+}
+    // c18
+root
+    // c19
+packet
+    // c20
+T
+    // c21
+{
+    // c22
+@lengthOf(
+    // c23
+repeatCount
+    // c24
+)
+    // c25
+@tag(
+    // c26
+1
+    // c27
+)
+    // c28
+@calculatedFrom(
+    // c29
+""a	b""
+    // c30
+)
+    // c31
+string
+    // c32
+stringy
+    // c33
+@calculatedFrom(
+    // c34
+""\n""
+    // c35
+)
+    // c36
+`u8 x,`
+    // c37
+,
+    // c38
+}
+    // c39
+")).
+Eval vm_compute in ("<<<M1239>>>" ++ check (runes_of_ascii "// top
+options // c0
+{ // c1a
+  // c1b
+zchar // c2
+= // c3a
+  // c3b
+true // c4
+; Pad // c6a
+  // c6b
+=
+    // c7
+char[ 00 // c9a
+  // c9b
+]
+    // c10
+a1 = // c12a
+  // c12b
+uint32 // c13a
+  // c13b
+BodyLength = true // c16a
+  // c16b
+;
+    // c17
+} root // c19
+packet // c20
+T // c21a
+  // c21b
+{
+    // c22
+@lengthOf( // c23a
+  // c23b
+repeatCount ) @tag( // c26a
+  // c26b
+1
+    // c27
+) // c28a
+  // c28b
+@calculatedFrom( // c29
+""a	b"" // c30a
+  // c30b
+) // c31a
+  // c31b
+string // c32
+stringy @calculatedFrom( ""\n"" ) // c36
+`u8 x,` // c37a
+  // c37b
+, // c38
+} // c39
+")).
+Eval vm_compute in ("<<<M1115>>>" ++ check (runes_of_ascii "packet float
+    // c1
+{ // c2
+@rightPad // c3a
+  // c3b
+( // c4a
+  // c4b
+) // c5a
+  // c5b
+rootA // c6
+@lengthOf( // c7a
+  // c7b
+trueish // c8
+)
+    // c9
+,
+    // c10
+stringy // c11a
+  // c11b
+@lengthOf( // c12a
+  // c12b
+matchKey )
+    // c14
+, // c15a
+  // c15b
+char[ 4294967296 ]
+    // c18
+pack @lengthOf(
+    // c20
+uint8x
+    // c21
+) // c22a
+  // c22b
+,
+    // c23
+} // c24
+root // c25
+packet trueish {
+    // c28
+repeat uint64
+    // c30
+u128
+    // c31
+`line1
+line2` // c32
+,
+    // c33
+}
+    // c34
+")).
+Eval vm_compute in ("<<<M291>>>" ++ check (runes_of_ascii "root
+// " ++ [27880; 37322]%N ++ runes_of_ascii "
+// @lengthOf(
+packet
+    Packet
+{ string o @calculatedFrom( ""\" ++ [233]%N ++ runes_of_ascii """)
+, @lengthOf( Packet
+    // packet A { u8 x, }
+    ) body @calculatedFrom( // @lengthOf(
+""x y"" )
+`it's` ,
+float64 As @calculatedFrom( ""`tick`""	), char[]	stringy  @calculatedFrom(""" ++ [28040; 24687]%N ++ runes_of_ascii """	) `doc` , @calculatedFrom(""a	b"") match
+float as o{ [ """ ++ [128512]%N ++ runes_of_ascii """
+    ,007]
+    :metadata
+,
+} ,f32a a1 `a\` , }
+MetaData
+repeatCount
+    { packetx i64_ `" ++ [28040; 24687; 31867; 22411]%N ++ runes_of_ascii "` , // " ++ [128512]%N ++ runes_of_ascii " emoji
+zchar[
+3
+] tag ,
+i8i8 int , }
+")).
+Eval vm_compute in ("<<<M256>>>" ++ check (runes_of_ascii "
+options // " ++ [27880; 37322]%N ++ runes_of_ascii "
+{ T = zchar[ 42
+] options1 = uint8 ;
+lengthOf
+=
+    // a // b
+    char[4294967296
+    ]
+    ; } packet Z9_ { repeat
+MetaDataX
+`crlf
+line`
+    ,
+repeat string x_y_z	,
+    u32 x
+, // `tick` ""quote"" 'q'
+@tag(
+// " ++ [128512]%N ++ runes_of_ascii " emoji
+// " ++ [128512]%N ++ runes_of_ascii " emoji
+00 )repeat i64 Logon ,
+u8x
+f32a, repeat
+    lengthOf``, repeat
+stringy Pad
+    // @lengthOf(
+    `
+`,
+    repeat
+    string_ chars `// not a comment` , }
 
 ")).
-Eval vm_compute in ("<<<M491>>>" ++ check (runes_of_ascii "packet uint8x
+Eval vm_compute in ("<<<M74>>>" ++ check (runes_of_ascii "options{ u = 7
+    // " ++ [27880; 37322]%N ++ runes_of_ascii "
+    roots
+=zchar[
+65535
+    ]
+msg_type = """ ++ [233]%N ++ runes_of_ascii "t" ++ [233]%N ++ runes_of_ascii """
+; x =false
+    } MetaData string_ { char[ // trailing space 
+42
+//x
+// " ++ [128512]%N ++ runes_of_ascii " emoji
+]
+i8i8 `" ++ [28040; 24687; 31867; 22411]%N ++ runes_of_ascii "`	, u8
+    x_y_z
+, packetx lengthOf``
+    // " ++ [27880; 37322]%N ++ runes_of_ascii "
+    ,
+T Header `line1
+line2` ,
+char[] // " ++ [27880; 37322]%N ++ runes_of_ascii "
+u8x `two words` ,}packet
+float //x
+{
+    calculatedFrom
+    ,
+@rightPad ( '0'
+) char[
+    3
+] u128 , } 	 ")).
+Eval vm_compute in ("<<<M100>>>" ++ check (runes_of_ascii "
+root packet
+a1
+    {
+tag Pad``
+, } options {
+}
+    root packet int	{
+    uint64 f32a , } packet
+MetaDataX {// c
+@leftPad( ' ' ) /// triple
+repeat uint16 Header	`{ , }`
+,
+// `tick` ""quote"" 'q'
+/// triple
+}
+options {
+Z9_= false
+    falsey //	t
+= ""x y"" ; rootA = false
+    // a // b
+    Foo	=true
+lengthOf
+    = float64 }")).
+Eval vm_compute in ("<<<M1451>>>" ++ check (runes_of_ascii "  packet
+len
+	{ }
+
+options { 
+Z9_=
+    4294967296;
+
+_x =  // a // b
+	0
+f32a=zchar[
+42 ]
+;
+}
+
+root
+	packet 
+        // @lengthOf(
+	BodyLength 	 // trailing space 
+	{ }
+
+options
+{
+
+    string_
+	=
+	u32
+
+;
+	charz
+    = 
+	/// triple
+    	// packet A { u8 x, }
+    string ;
+	}
+
+packet
+len  {
+}
+")).
+Eval vm_compute in ("<<<M1847>>>" ++ check (runes_of_ascii "// top
+packet float {
+    @rightPad()
+    // c5
+    rootA @lengthOf(trueish),
+    // c10
+    stringy @lengthOf(matchKey),
+    // c15
+    char[4294967296] pack @lengthOf(uint8x),
+}
+
+// c24
+root packet trueish {
+    // c28
+    repeat uint64 u128 `line1
+    line2`,
+}")).
+Eval vm_compute in ("<<<M190>>>" ++ check (runes_of_ascii "packet // @lengthOf(
+f32a
+    {	@rightPad (
+    '0' ) @lengthOf( BodyLength ) uint8 Foo ``,
+    //x
+    char[]
+    options1 @calculatedFrom(
+    ""it's"" ) ,@tag(255/// triple
+) uint64
+    Header @calculatedFrom( ""abc""
+) `
+`
+,}
+
+")).
+Eval vm_compute in ("<<<M1590>>>" ++ check (runes_of_ascii "packet matchKey {
+    @lengthOf(a1)
+    string_ T `" ++ [28040; 24687; 31867; 22411]%N ++ runes_of_ascii "`,//
+}
+
+packet body {
+    f32 _x,
+    packetx @lengthOf(options1) ``,
+    @leftPad(' ')
+    i16 crc,
+    @calculatedFrom(""" ++ [128512]%N ++ runes_of_ascii """)
+    Pad,
+}//")).
+Eval vm_compute in ("<<<M1753>>>" ++ check (runes_of_ascii "
+MetaData
+leftPad  {
+
+chars  MetaDataX
+
+    // c
+	, } packet
+
+repeatCount
+
+    {
+
+    char[
+
+    255 ] 
+uint8x
+
+`" ++ [233]%N ++ runes_of_ascii "`  , } 
+MetaData
+    pack
+
+    {  As
+
+Foo 
+, }
+")).
+Eval vm_compute in ("<<<M453>>>" ++ check (runes_of_ascii "packet uint8x
 { match pack
     as msg_type	{
     0123456789 :	float
 }
-,
+@lengthOf(
 } packet //	t
 a1
-    { } options {packetx packetx
+    { } options {packetx
     = '\x00'	; u128= ""a	b""  ; }
 ")).
 Eval vm_compute in ("<<<M518>>>" ++ check (runes_of_ascii "packet uint8x
@@ -718,7 +824,7 @@ a1
     { } options {packetx
     = '\x00'	; u128 true ""a	b""  ; }
 ")).
-Eval vm_compute in ("<<<M526>>>" ++ check (runes_of_ascii "packet uint8x
+Eval vm_compute in ("<<<M542>>>" ++ check (runes_of_ascii "$ packet uint8x
 { match pack
     as msg_type	{
     0123456789 :	float
@@ -727,12 +833,12 @@ Eval vm_compute in ("<<<M526>>>" ++ check (runes_of_ascii "packet uint8x
 } packet //	t
 a1
     { } options {packetx
-    = '\x00'	; u128= ""a	b""  ; ; }
+    = '\x00'	; u128= ""a	b""  ; }
 ")).
-Eval vm_compute in ("<<<M422>>>" ++ check (runes_of_ascii "packet uint8x
+Eval vm_compute in ("<<<M437>>>" ++ check (runes_of_ascii "packet uint8x
 { match pack
-    as {	msg_type
-    0123456789 :	float
+    as msg_type	{
+    0123456789 float	:
 }
 ,
 } packet //	t
@@ -740,284 +846,274 @@ a1
     { } options {packetx
     = '\x00'	; u128= ""a	b""  ; }
 ")).
-Eval vm_compute in ("<<<M445>>>" ++ check (runes_of_ascii "packet uint8x
+Eval vm_compute in ("<<<M468>>>" ++ check (runes_of_ascii "packet uint8x
 { match pack
     as msg_type	{
     0123456789 :	float
-
+}
+,
+} packet //	t
+,
+    { } options {packetx
+    = '\x00'	; u128= ""a	b""  ; }
+")).
+Eval vm_compute in ("<<<M533>>>" ++ check (runes_of_ascii "packet uint8x
+{ match pack
+    as msg_type	{
+    0123456789 :	float
+}
 ,
 } packet //	t
 a1
     { } options {packetx
-    = '\x00'	; u128= ""a	b""  ; }
-")).
-Eval vm_compute in ("<<<M1451>>>" ++ check (runes_of_ascii "packet uint8x {
-    match pack as msg_type {
-        0123456789 : float,
-    },
+    = '\x00'	; u128= ""a	b""  ;")).
+Eval vm_compute in ("<<<M718>>>" ++ check (runes_of_ascii "// @lengthOf(
+packet i8i8 { u128 o , }
+options { MetaDataX = true;
+    BodyLength =""packet"" x_y_z= 007
+crc //x
+= ""abc"" ;
+    msg_type as
+i16 }")).
+Eval vm_compute in ("<<<M699>>>" ++ check (runes_of_ascii "// @lengthOf(
+packet i8i8 { a" ++ [769]%N ++ runes_of_ascii "b o , }
+options { MetaDataX = true;
+    BodyLength =""packet"" x_y_z= 007
+crc //x
+= ""abc"" ;
+    msg_type =
+i16 }")).
+Eval vm_compute in ("<<<M1426>>>" ++ check (runes_of_ascii "packet stringy {
 }
 
-packet a1 {
-}
-
-options {
-    packetx = char;
-    u128 = ""a	b"";
+MetaData u8x {
+    zchar[65535] Pad,
+    stringy string_ `u8 x,`,
+    u8 lengthOf `
+        `,
+    char[255] pack,
 }")).
-Eval vm_compute in ("<<<M395>>>" ++ check (runes_of_ascii "packet 
-{ match pack
-    as msg_type	{
-    0123456789 :	float
-}
-,
-} packet //	t
-a1
-    { } options {packetx
-    = '\x00'	; u128= ""a	b""  ; }
+Eval vm_compute in ("<<<M1403>>>" ++ check (runes_of_ascii "  MetaData
+leftPad{	chars
+
+MetaDataX ,
+}packet
+
+repeatCount{
+
+char[255  ]
+	uint8x
+
+`" ++ [233]%N ++ runes_of_ascii "` ,
+
+}MetaData pack
+{	As
+
+Foo , // c
+  }
 ")).
-Eval vm_compute in ("<<<M1656>>>" ++ check (runes_of_ascii "MetaData	leftPad
-{
-chars
-MetaDataX
-
-,	}  packet
-    repeatCount
-
-{
-
-    // c
-	char[255
-    ] 
-uint8x
-`" ++ [233]%N ++ runes_of_ascii "`
-,
-} MetaData pack{
-As Foo
-
-,
-	}
-")).
-Eval vm_compute in ("<<<M1861>>>" ++ check (runes_of_ascii "packet
-Logon {	repeat 
-u {zchar{ 
-zchar[ 007
-	]
-
-a1
-    ``
-
-    ,
-    x_y_z
-	@calculatedFrom( 
-    //
-
-  // " ++ [128512]%N ++ runes_of_ascii " emoji
-  ""{,}"")
-,}
-	,  },
-}")).
-Eval vm_compute in ("<<<M1401>>>" ++ check (runes_of_ascii "packet
-
-    A
-	{ match
-
-    k
-as n
-	{
-
-    [
-	1	,22 ,
-""c c""
-	,  4,	5 ,
-""f"" ,  7 ,
-    8	,
-    ""i"" , 10 ]	:
-B 2 
-:C} 
-, }
-
-")).
-Eval vm_compute in ("<<<M1261>>>" ++ check (runes_of_ascii "packet B {
-    u8 a,
-}
-root packet P {
-    u8 K,
-    u64 L @lengthOf(Body),
-    match K as Body {
-        1 : B,
-    },
-}
-")).
-Eval vm_compute in ("<<<M1152>>>" ++ check (runes_of_ascii "MetaData leftPad { chars MetaDataX
+Eval vm_compute in ("<<<M1142>>>" ++ check (runes_of_ascii "
 // c
-, } packet repeatCount { char[ 255 ] uint8x `" ++ [233]%N ++ runes_of_ascii "` , } MetaData pack { As Foo , }")).
-Eval vm_compute in ("<<<M1184>>>" ++ check (runes_of_ascii "MetaData leftPad { chars MetaDataX , } packet repeatCount { char[ 255 ] uint8x `" ++ [233]%N ++ runes_of_ascii "` , } MetaData pack { As
+MetaData leftPad { chars MetaDataX , } packet repeatCount { char[ 255 ] uint8x `" ++ [233]%N ++ runes_of_ascii "` , } MetaData pack { As Foo , }")).
+Eval vm_compute in ("<<<M1168>>>" ++ check (runes_of_ascii "MetaData leftPad { chars MetaDataX , } packet repeatCount { char[ 255 ]
 // c
-Foo , }")).
-Eval vm_compute in ("<<<M1661>>>" ++ check (runes_of_ascii "packet asx {
-    match u128 as lengthOf {
-        //	t
-        // `ti/ck` ""quote"" 'q'
-        255 : x,
-    },
-}")).
-Eval vm_compute in ("<<<M1618>>>" ++ check (runes_of_ascii "packet
+uint8x `" ++ [233]%N ++ runes_of_ascii "` , } MetaData pack { As Foo , }")).
+Eval vm_compute in ("<<<M1655>>>" ++ check (runes_of_ascii "
 
-    A	{
+  packet
 
-match
-k
+A
 
-as
-	n
-{
-
+    {match k as
+n
+    {
     [
 	1
-    , ""bb""  ,  007  ]:
-    B
 
     ,
-2
+	""bb"",
+007  ,	""d"" , 5  , ""f"",7 ] : B 2
 
-:C 
+    :C } , 
 }
 
-    ,}
 ")).
-Eval vm_compute in ("<<<M641>>>" ++ check (runes_of_ascii "
-packet
-    asx {match u128 as lengthOf
-{
-//	t
-// `tick` ""quote"" 'q'
-255 : x ,
-    } @lengthOf ,	}")).
-Eval vm_compute in ("<<<M1841>>>" ++ check (runes_of_ascii "
+Eval vm_compute in ("<<<M1459>>>" ++ check (runes_of_ascii "packet
+A {
+match  k
+    as
 
-  options {
+n
+    {
+[  ""a"", 
+22
+	,""c c""  ,
+    4
 
-    FixedStringPadFromLeft =
-true
+    ,""e""  ,	66, ""g""]	: B
 
-    ;}  root packet  P	{ char[
-4 ] z ,	}")).
-Eval vm_compute in ("<<<M841>>>" ++ check (runes_of_ascii "packet A {
+2	:
+
+C }
+
+, }
+")).
+Eval vm_compute in ("<<<M1391>>>" ++ check (runes_of_ascii "options {
+    LittleEndian = true;
+}
+
+root packet P {
+    u16 a,
+    u32 Sum @calculatedFrom(""CRC32""),
+}")).
+Eval vm_compute in ("<<<M1248>>>" ++ check (runes_of_ascii "  options
+{LittleEndian 
+= true 
+; }
+
+    root  packet
+
+P {
+
+    repeat
+char
+cs
+
+, u8
+	x, }
+
+")).
+Eval vm_compute in ("<<<M871>>>" ++ check (runes_of_ascii "packet A {
   match k as n {
-    [""a"", ""bb"", ""c c"", ""d"", ""e"", ""f"", ""g""] : B,
+    [""a"", 22, ""c c"", 4, ""e"", 66, ""g"", 8, ""i""] : B,
     2 : C
   },
 }")).
-Eval vm_compute in ("<<<M638>>>" ++ check (runes_of_ascii "
-packet
-    asx {match u128 as leng""thOf
-{
-//	t
-// `tick` ""quote"" 'q'
-255 : x ,
-    } ,	}")).
-Eval vm_compute in ("<<<M607>>>" ++ check (runes_of_ascii "
-packet
-    asx {match u128 as lengthOf
-{
-//	t
-// `tick` ""quote"" 'q'
-255 : x 
-    } ,	}")).
-Eval vm_compute in ("<<<M621>>>" ++ check (runes_of_ascii "
-packet
-    asx {match u128 as lengthOf
-{
-//	t
-// `tick` ""quote"" 'q'
-255 : x ,
-    }")).
-Eval vm_compute in ("<<<M1440>>>" ++ check (runes_of_ascii "MetaData charz {
-    As u128,
-    Logon options1 `say ""hi""`,
-    zchar[0] Logon,
+Eval vm_compute in ("<<<M1686>>>" ++ check (runes_of_ascii "packet body {
+    match Logon as _x {
+        4294967296 : _x,
+        """ ++ [28040; 24687]%N ++ runes_of_ascii """ : u128,
+    },
 }")).
-Eval vm_compute in ("<<<M1499>>>" ++ check (runes_of_ascii "packet A {
+Eval vm_compute in ("<<<M1765>>>" ++ check (runes_of_ascii "
+//	t
+    	options
+    {
+
+roots= ""\n""	;
+
+o 
+
+    //
+	  =
+
+    '0'
+
+; tag
+    =
+true }
+")).
+Eval vm_compute in ("<<<M622>>>" ++ check (runes_of_ascii "
+packet
+    asx {match u128 as lengthOf
+{
+//	t
+// `tick` ""quote"" 'q'
+255 : x ,
+    } ,	")).
+Eval vm_compute in ("<<<M1275>>>" ++ check (runes_of_ascii "
+
+  options{ FixedStringPadFromLeft
+= 
+true 
+; }root 
+packet  P {char[
+    4 ]
+z,
+	}")).
+Eval vm_compute in ("<<<M690>>>" ++ check (runes_of_ascii "// @lengthOf(
+packet i8i8 { u128 o , }
+options { MetaDataX = true;
+    BodyLength")).
+Eval vm_compute in ("<<<M125>>>" ++ check (runes_of_ascii "//	t
+options {
+    roots  =  ""\n""	; o
+    //
+    = '0' ;
+tag
+    =true
+    }")).
+Eval vm_compute in ("<<<M1879>>>" ++ check (runes_of_ascii "packet A {
     match k as n {
-        [""a"", ""bb""] : B,
+        [1, 22] : B,
         2 : C,
     },
 }")).
-Eval vm_compute in ("<<<M345>>>" ++ check (runes_of_ascii "
-options
-{ } // " ++ [128512]%N ++ runes_of_ascii " emoji
-options { float // `tick` ""quote"" 'q'
-=	65535 }
-")).
-Eval vm_compute in ("<<<M1651>>>" ++ check (runes_of_ascii "packet  body
-
-{i32 f32a 
-`{ , }`
-, 
-        // c
-  }  options 
-{
-	} ")).
-Eval vm_compute in ("<<<M1591>>>" ++ check (runes_of_ascii "packet 
-A
-{
-	match
-	k	as  n
-
-    { 1 :
-    B ,
-	// c
-  } , 
-}
-")).
-Eval vm_compute in ("<<<M2>>>" ++ check (runes_of_ascii "root
-// trailing space 
-// " ++ [27880; 37322]%N ++ runes_of_ascii "
+Eval vm_compute in ("<<<M797>>>" ++ check (runes_of_ascii "packet A {
+  match k as n {
+    [""a"", ""bb"", 007] : B,
+    2 : C
+  },
+}")).
+Eval vm_compute in ("<<<M628>>>" ++ check (runes_of_ascii "
 packet
-u{  } // trailing space ")).
-Eval vm_compute in ("<<<M1089>>>" ++ check (runes_of_ascii "packet A { // a
- @tag(1) u8 x, // b
- // c
- @tag(2) u8 y, }")).
-Eval vm_compute in ("<<<M1478>>>" ++ check (runes_of_ascii "MetaData M
-	{
-
-    u8 
-x `a
-
-b`
+    asx {match u128 as lengthOf
+{
+//	t
+// `tick` ""quote""")).
+Eval vm_compute in ("<<<M189>>>" ++ check (runes_of_ascii "
+packet
+i64_ { @tag( 0123456789 ) repeat u16 stringy
 ,
+    }")).
+Eval vm_compute in ("<<<M1593>>>" ++ check (runes_of_ascii "
+root
+packet	P {	hdr  {u8
+a
+    ,
 
-T
-t`a
+    }	,
+	u8 x,  }
 
-b`
-,  } ")).
-Eval vm_compute in ("<<<M333>>>" ++ check (runes_of_ascii "  MetaData
-x_y_z{ }	packet chars	{	} options {}
 ")).
-Eval vm_compute in ("<<<M763>>>" ++ check (runes_of_ascii "@calculatedFrom( true ; MetaData """ ++ [233]%N ++ runes_of_ascii "t" ++ [233]%N ++ runes_of_ascii """ match")).
-Eval vm_compute in ("<<<M752>>>" ++ check (runes_of_ascii "repeatCount u32 as false uint64 0 @tag(")).
-Eval vm_compute in ("<<<M1652>>>" ++ check (runes_of_ascii "packet A {
-    u8 x `d x`,// c x
+Eval vm_compute in ("<<<M1202>>>" ++ check (runes_of_ascii "packet body
+// c
+{ i32 f32a `{ , }` , } options { }")).
+Eval vm_compute in ("<<<M1243>>>" ++ check (runes_of_ascii "root packet P {
+    repeat char cs,
+    u8 x,
+}
+")).
+Eval vm_compute in ("<<<M724>>>" ++ check (runes_of_ascii "// @lengthOf(
+packet i8i8 { u128 o , }
+opt")).
+Eval vm_compute in ("<<<M1075>>>" ++ check (runes_of_ascii "MetaData M {
+}// c
+MetaData N {
+}// d")).
+Eval vm_compute in ("<<<M85>>>" ++ check (runes_of_ascii "options// c
+{MetaDataX =int16 }
+")).
+Eval vm_compute in ("<<<M1003>>>" ++ check (runes_of_ascii "packet A {
+ u8 x `d" ++ [8192]%N ++ runes_of_ascii "`, // c" ++ [8192]%N ++ runes_of_ascii "
 }")).
-Eval vm_compute in ("<<<M978>>>" ++ check (runes_of_ascii "packet A {
- u8 x `d `, // c 
-}")).
-Eval vm_compute in ("<<<M757>>>" ++ check (runes_of_ascii "z>" ++ [65533]%N ++ runes_of_ascii "*" ++ [65533]%N ++ runes_of_ascii "7" ++ [65533; 65533; 65533; 65533]%N ++ runes_of_ascii "+" ++ [65533]%N ++ runes_of_ascii "~" ++ [65533; 0; 65533; 65533]%N ++ runes_of_ascii "c" ++ [1171]%N ++ runes_of_ascii "n" ++ [65533; 65533; 65533; 12; 65533]%N ++ runes_of_ascii "E>K")).
-Eval vm_compute in ("<<<M326>>>" ++ check (runes_of_ascii "  options{// a // b
+Eval vm_compute in ("<<<M1065>>>" ++ check (runes_of_ascii "packet A {
+}// a// b// c
+")).
+Eval vm_compute in ("<<<M770>>>" ++ check (runes_of_ascii "EJYa-@ZpfaJe_ojrLyZC9M")).
+Eval vm_compute in ("<<<M211>>>" ++ check (runes_of_ascii "MetaData
+roots {
 }
 
 ")).
-Eval vm_compute in ("<<<M1110>>>" ++ check (runes_of_ascii "MetaData tag {
-// c
-}")).
-Eval vm_compute in ("<<<M278>>>" ++ check (runes_of_ascii "packet Packet { }
-")).
-Eval vm_compute in ("<<<M1052>>>" ++ check (runes_of_ascii "// c" ++ [65279]%N ++ runes_of_ascii "
+Eval vm_compute in ("<<<M987>>>" ++ check (runes_of_ascii "// c" ++ [160]%N ++ runes_of_ascii "
 packet A {
 }")).
-Eval vm_compute in ("<<<M1082>>>" ++ check (runes_of_ascii "options { // a
- }")).
-Eval vm_compute in ("<<<M740>>>" ++ check (runes_of_ascii ", = , ; int16")).
+Eval vm_compute in ("<<<M1232>>>" ++ check (runes_of_ascii "packet x { } // c
+")).
+Eval vm_compute in ("<<<M1231>>>" ++ check (runes_of_ascii "packet x {
+// c
+}")).
+Eval vm_compute in ("<<<M1389>>>" ++ check (runes_of_ascii "packet A {
+}")).
 Eval vm_compute in ("<<<M1030>>>" ++ check (runes_of_ascii "// c" ++ [11]%N)).
